@@ -9,6 +9,7 @@ import LyModel.Lyb.Drv
 import LyModel.Conc.Drv
 import LyModel.Iff.Drv
 import LyModel.XPath.Drv
+import LyModel.YangStr.Drv
 /-! Dispatch table of the line-protocol driver: one handler per component. -/
 namespace LyModel.Drv
 
@@ -25,6 +26,7 @@ def dispatch (comp op : String) (args : List String) : String :=
   | "conc" => Conc.Drv.handle op args
   | "iff" => Iff.Drv.handle op args
   | "xpath" => XPath.Drv.handle op args
+  | "yangstr" => YangStr.Drv.handle op args
   | _ => "err NoSuchComponent"
 
 end LyModel.Drv
